@@ -57,9 +57,14 @@ class UMNDirHandler(DirHandler):
             # a link file.  If yes, process it and return false.
             if file[0] == ".":
                 if not self.vfs.isdir(self.selectorbase + "/" + file):
-                    self.linkentries.extend(
-                        self.processLinkFile(self.selectorbase + "/" + file)
-                    )
+                    try:
+                        self.linkentries.extend(
+                            self.processLinkFile(self.selectorbase + "/" + file)
+                        )
+                    except IOError:
+                        # Unreadable dot-file (e.g. a dangling symlink):
+                        # nothing to merge.
+                        pass
                     return False
                 else:
                     return False  # A "dot dir" -- ignore.
